@@ -1,4 +1,4 @@
-//! C21: gid numbers through the REAL gidnumber plugin (create / modify / batch modify paths).
+//! C21: gid numbers through the REAL gidnumber plugin (create / modify / replace / batch / Set / batch Set paths).
 //! Every case runs in its own write transaction that is dropped without commit.
 use crate::sx;
 use kanidmd_lib::prelude::*;
@@ -100,6 +100,22 @@ async fn one(qs: &QueryServer, at: std::time::Duration, kind: &str, path: &str, 
             }
             w.internal_batch_modify([(uuid_tail(u), ModifyList::new_list(m))].into_iter())
         }),
+        // existing posix entry: the number is replaced by a Set modification (the form SCIM PUT and the assertion
+        // interface use), alone in its modify list
+        "set" => w.internal_create(vec![base_entry(kind, u, true)]).and_then(|_| match sup {
+            Some(g) => w.internal_modify_uuid(
+                uuid_tail(u),
+                &ModifyList::new_set(Attribute::GidNumber, kanidmd_lib::valueset::ValueSetUint32::new(g)),
+            ),
+            None => Ok(()),
+        }),
+        // the same through batch modify
+        "batchset" => w.internal_create(vec![base_entry(kind, u, true)]).and_then(|_| match sup {
+            Some(g) => w.internal_batch_modify(
+                [(uuid_tail(u), ModifyList::new_set(Attribute::GidNumber, kanidmd_lib::valueset::ValueSetUint32::new(g)))].into_iter(),
+            ),
+            None => Ok(()),
+        }),
         // a plain (non posix) entry: no number is generated
         "plain" => w.internal_create(vec![base_entry(kind, u, false)]),
         _ => Err(OperationError::InvalidState),
@@ -143,7 +159,7 @@ pub fn run(o: &Opts) -> i32 {
         let mut n = 0u32;
         // supplied numbers: every boundary value through every path; uuid tails vary
         for (i, g) in vals.iter().enumerate() {
-            for path in ["create", "modify", "replace", "batch"] {
+            for path in ["create", "modify", "replace", "batch", "set", "batchset"] {
                 n += 1;
                 cases.push((kinds[(i + n as usize) % 2].into(), path.into(), 0x0100_0000 + n, Some(*g)));
             }
@@ -173,7 +189,7 @@ pub fn run(o: &Opts) -> i32 {
         for i in 0..o.u64("random", 200) {
             let g = if i % 2 == 0 { rng.next() as u32 } else { rng.below(70000) as u32 };
             n += 1;
-            let path = *rng.pick(&["create", "modify", "replace", "batch"]);
+            let path = *rng.pick(&["create", "modify", "replace", "batch", "set", "batchset"]);
             cases.push((kinds[(i % 2) as usize].into(), path.into(), 0x0200_0000 + n, Some(g)));
         }
     }
